@@ -462,6 +462,7 @@ class Group06(coremodel.Group):
             f"Definition rt : runtime := mk_runtime\n  {coremodel.emit_leaf_tbl(t.lu)}\n  {coremodel.emit_leaf_tbl(t.lm)}\n"
             f"  {coremodel.emit_tbl(t.nu, '(pv * res pv)')}\n  {coremodel.emit_tbl(t.ld, '(pv * res pv)')}\n"
             f"  {coremodel.emit_tbl(t.vs, '(pv * res (list pv))')}\n  {coremodel.emit_tbl(t.its, '(pv * res (list (pv * pv)))')}\n"
+            f"  {coremodel.emit_tbl(getattr(t, 'ups', {}), '(pv * res (pv * pv))')}\n"
             f"  {coremodel.emit_tbl(t.pl, '(pv * bool)')}\n"
             f"  {coq_list([lib.coq_pair(coq_nat(i), v) for i, v in t.ix.items()], '(nat * pv)')}\n"
             f"  {coq_list([coq_nat(n) for n in self.unhashable_classes()], 'nat')}\n"
